@@ -208,7 +208,10 @@ def plan(S, prop, mode, tier, avoid):
             c, h = draw_interval(r)
             m = r.randrange(2, 40)
             op.update({"c": c, "h": h, "m": m, "g": draw_g(r), "noise": chance(r, 0.3),
-                       "dseed": r.randrange(1 << 30), "even": chance(r, 0.25)})
+                       "dseed": r.randrange(1 << 30), "even": chance(r, 0.25),
+                       # (float32 abscissae are not generated: esutil then works in single precision, and the statement
+                       # gives no accuracy for the data integrator that would say whether 6e-8 relative is wrong)
+                       "xdt": wpick(r, [("f8", 7), ("i8", 1), ("i4", 0.7)])})
             prev = [o for o in ops if o["k"] == "data"]
             if k == "data" and prev and chance(r, 0.4):
                 # a sibling of the previous table: same length, same end points, same npts -- other abscissae inside
@@ -269,6 +272,21 @@ def _data(op):
         t = np.array([-1.0, 1.0])
     t[-1] = 1.0
     x = op["c"] + op["h"] * t
+    xdt = op.get("xdt", "f8")
+    if xdt in ("i8", "i4"):
+        # an integer-typed abscissa column (pixel numbers, channel numbers), partly negative, evenly or unevenly spaced
+        steps = np.ones(max(1, t.size - 1), dtype="i8") if op.get("even") else g.integers(1, 6, max(1, t.size - 1))
+        xi = np.concatenate(([0], np.cumsum(steps)))[:max(2, t.size)]
+        xi = xi - int(xi[-1] * g.uniform(0.2, 1.2))
+        x = xi.astype(xdt)
+        t = (xi - 0.5 * (xi[0] + xi[-1])) / (0.5 * (xi[-1] - xi[0]))
+    elif xdt == "f4":
+        x = x.astype("f4")
+        if np.any(np.diff(x.astype("f8")) <= 0):
+            x = (op["c"] + op["h"] * t)
+        else:
+            xf = x.astype("f8")
+            t = (xf - 0.5 * (xf[0] + xf[-1])) / (0.5 * (xf[-1] - xf[0]))
     y = make_g(op["g"])(t)
     if op.get("noise"):
         y = y + g.normal(0, 0.3, t.size)
